@@ -31,9 +31,9 @@ NewRowKeys(o) == LET new == {r \in S2(o.rows) : r.k \notin KeysOf(idx)}
                      s == SetToSortSeq(new, RowLess)
                  IN [i \in DOMAIN s |-> s[i].k]
 (* keys reaching the pack first (observed), then the ones the call skipped *)
-ImportOrder(o, fresh) == LET written == NewRowKeys(o)
-                             rest == SetToSeq(fresh \ S2(written))
-                         IN SelectSeq(written, LAMBDA k : k \in fresh) \o rest
+ImportOrders(o, fresh) == LET written == SelectSeq(NewRowKeys(o), LAMBDA k : k \in fresh)
+                              rest == SetToSeq(fresh \ S2(written))
+                          IN {written \o rest, rest \o written}
 
 Plain(r) == [k |-> r.k, p |-> r.p, off |-> r.off, len |-> r.len, z |-> r.z, size |-> r.size]
 
@@ -57,7 +57,7 @@ Step(ln) ==
          [] o.name = "import"    -> LET src == S2(o.src)
                                         avail == S \cap src
                                         fresh == IF o.samehash THEN avail \ (LoosePresent \cup KeysOf(V(h))) ELSE avail
-                                    IN Import(h, S, o.z, o.samehash, ImportOrder(ln.obs, fresh), src)
+                                    IN \E ord \in ImportOrders(ln.obs, fresh) : Import(h, S, o.z, o.samehash, ord, src)
          [] o.name = "reopen"    -> Reopen(h)
          [] o.name = "initagain" -> InitAgain(h)
          [] o.name = "has"       -> Has(h, S)
